@@ -973,6 +973,10 @@ var foreignGlobals = map[string]func(in *Interp, t types.Type) Value{
 		}
 		return GSlice{arr: arr, len: len(vs), cap: len(vs)}
 	},
+	// sync.Map's tombstone: var expunged = new(any)
+	"sync.expunged": func(in *Interp, t types.Type) Value {
+		return newLoc(types.NewInterfaceType(nil, nil))
+	},
 	"os.ErrDeadlineExceeded": func(in *Interp, t types.Type) Value {
 		p := in.prog.ImportedPackage("internal/poll")
 		if p == nil {
